@@ -123,6 +123,16 @@ func checkC16(c *Ctx) {
 			}
 			if call, ok := in.(*ssa.Call); ok {
 				if g := calleeFn(call.Common()); g != nil && isModFn(g) {
+					// the snapshot may be taken by a helper that ranges over the set
+					if g.Blocks != nil && rng == nil {
+						eachInstr(g, func(_ *ssa.BasicBlock, _ int, x ssa.Instruction) {
+							if r, ok := x.(*ssa.Range); ok {
+								if f, _ := loadedField(r.X); f == subF {
+									rng = in
+								}
+							}
+						})
+					}
 					for _, q := range []*types.Var{subCh, unsubCh} {
 						if drainsQueue(p, g, q) {
 							flushes[q] = in
@@ -326,7 +336,7 @@ func checkC16(c *Ctx) {
 				return
 			}
 			// first argument derives from the range over subscribed
-			if derives(cc.Args[0], func(v ssa.Value) bool {
+			if derivesIP(cc.Args[0], func(v ssa.Value) bool {
 				if nx, ok := v.(*ssa.Next); ok {
 					if r, ok := nx.Iter.(*ssa.Range); ok {
 						f, _ := loadedField(r.X)
@@ -334,7 +344,7 @@ func checkC16(c *Ctx) {
 					}
 				}
 				return false
-			}) && isNilConst(cc.Args[1]) {
+			}, 2) && isNilConst(cc.Args[1]) {
 				okSnap = true
 			}
 		})
@@ -418,6 +428,28 @@ func checkC16(c *Ctx) {
 	}
 	c.Expect("R5", 3)
 	checkSenderWokenByReceiver(c, "R6")
+	c.Rule("R7", "no lock of the discovery clients is acquired while it is already held: a second RLock behind a waiting writer (Subscribe/Unsubscribe) never returns, and neither does the writer")
+	nacq := 0
+	for _, fn := range le.fns {
+		eachInstr(fn, func(_ *ssa.BasicBlock, _ int, in ssa.Instruction) {
+			fld, op := mutexOp(in)
+			if fld == nil || (op != "Lock" && op != "RLock") {
+				return
+			}
+			if _, isDefer := in.(*ssa.Defer); isDefer {
+				return
+			}
+			nacq++
+			if le.heldAt(in)[fld] != lockNone {
+				c.Fail("R7", fmt.Sprintf("%s acquires %s once", fnKey(fn), fld.Name()), in.Pos(), "the lock is acquired while the calling code already holds it (must-lockset at this acquisition): sync.RWMutex is not reentrant - with a writer queued between the two acquisitions (a Subscribe or Unsubscribe of a dependency update) the second RLock waits for the writer and the writer for the first: the stream is never established again and the dependency hook is stuck")
+			}
+		})
+	}
+	if nacq == 0 {
+		c.Unresolved("R7", "no lock acquisition in package config")
+	} else {
+		c.OK("R7", "lock acquisitions examined", token.NoPos, fmt.Sprintf("%d acquisitions, the must-lockset before each was computed", nacq))
+	}
 }
 
 // drainsQueue: g contains a non-blocking select receiving from queue field q in a loop.
